@@ -36,6 +36,7 @@ package hessian
 import (
 	"encoding/binary"
 	"io"
+	"math"
 	"reflect"
 	"time"
 	"unsafe"
@@ -57,7 +58,7 @@ func encodeDate(date time.Time) []byte {
 	if date.IsZero() {
 		return []byte{_nilTag}
 	}
-	if date.Nanosecond() != 0 {
+	if date.Nanosecond() != 0 || date.Unix() < math.MinInt32 || date.Unix() > math.MaxInt32 {
 		value := date.UnixNano() / int64(time.Millisecond)
 
 		// 8 octet longs
